@@ -10,6 +10,14 @@ Proof. unfold llen. rewrite app_length. lia. Qed.
 Lemma llen_cons {A} (x : A) a : llen (x :: a) = 1 + llen a.
 Proof. unfold llen. cbn [length]. lia. Qed.
 
+Lemma nth_error_ext {A} (l l' : list A) : (forall j, nth_error l j = nth_error l' j) -> l = l'.
+Proof.
+  revert l'; induction l as [|x l IH]; intros [|y l'] H; try reflexivity.
+  - specialize (H O). discriminate.
+  - specialize (H O). discriminate.
+  - pose proof (H O) as H0. cbn in H0. injection H0 as <-. f_equal. apply IH. intros j. exact (H (S j)).
+Qed.
+
 Lemma bytes_at_length d o n : length (bytes_at d o n) = n.
 Proof. revert o; induction n; intros; cbn [bytes_at length]; auto. Qed.
 
